@@ -45,6 +45,39 @@ def run(ctx):
     ctx.rule('R17.6', 'an allocation stops counting towards the worker limit only when it really ended: the normal finish is guarded by lost-workers == submitted size')
     from . import C18 as _c18
     _c18.finish_test(ctx, 'R17.6')
+    ctx.rule('R17.7', 'the number of workers of every permitted allocation depends on all documented limits (max worker count minus active workers, backlog minus queued allocations, max workers per allocation) and is never zero')
+    csp = prog.body(PROC + 'compute_submission_permit')
+    INFO = AA + 'QueueInfo::'
+    pushes = [bi for bi in csp.call_blocks('alloc::vec::Vec::push') if csp.locals_named('allocations') and set(csp.locals_named('allocations')) & csp.derived_from(op_local(csp.term[bi]['args'][0]))]
+    ctx.require(len(pushes) == 1, 'R17.7: push into allocations')
+    pv = op_local(csp.term[pushes[0]]['args'][1])
+    srcs = csp.derived_from(pv)
+    def dep_on(callee_suffix, through_iter=False):
+        cs = csp.call_blocks(lambda c: c.endswith(callee_suffix))
+        return any(csp.term[x]['d'][0] in srcs for x in cs), cs
+    for nm, suf in (('max_worker_count', 'QueueInfo::max_worker_count'), ('active workers', 'AllocationQueue::active_worker_count')):
+        ok, cs = dep_on(suf)
+        ctx.ob('R17.7', f'permit|depends on {nm}', ok, f'the permitted worker count is bounded through {nm}', csp.loc(cs[0]) if cs else csp.loc())
+    # the loop iterator is take(backlog - queued)
+    tk = csp.call_blocks(lambda c: c.endswith('Iterator::take'))
+    ctx.require(tk, 'R17.7: take(max_allocs_to_submit)')
+    tsrc = csp.derived_from(op_local(csp.term[tk[0]]['args'][1]))
+    bl = csp.call_blocks(lambda c: c.endswith('QueueInfo::backlog'))
+    ql = csp.call_blocks(lambda c: c.endswith('Vec::len'))
+    ctx.ob('R17.7', 'permit|number of allocations <= backlog - queued', any(csp.term[x]['d'][0] in tsrc for x in bl) and any(csp.term[x]['d'][0] in tsrc for x in ql) and csp.term[tk[0]]['d'][0] in csp.derived_from(pv),
+           'the allocations to submit are cut by take(backlog - queued allocations)', csp.loc(tk[0]))
+    mw = csp.call_blocks(lambda c: c.endswith('QueueInfo::max_workers_per_alloc'))
+    ctx.ob('R17.7', 'permit|per-allocation limit', len(mw) >= 2 and any(csp.term[x]['d'][0] in srcs for x in mw), 'single-node allocations are sized by max_workers_per_alloc', csp.loc(mw[0]) if mw else csp.loc())
+    mn = csp.call_blocks(lambda c: c.endswith('cmp::Ord::min'))
+    ctx.ob('R17.7', 'permit|min with remaining workers', any(csp.term[x]['d'][0] in srcs for x in mn), 'each allocation is clamped by the remaining worker budget (min)', csp.loc(mn[0]) if mn else csp.loc())
+    from hqrules.templates import bool_uses
+    z = [(bi, s_) for bi, s_, op, a, c in binops(csp) if op == 'Eq' and any(o[0] == 'k' and '0_' in o[1] for o in (a, c)) and any(op_local(o) in srcs for o in (a, c) if op_local(o) is not None)]
+    okz = False
+    for bi, s_ in z:
+        fe = set((sb, fs) for sb, ts, fs in bool_uses(csp, s_['p'][0]))
+        if fe and dominated_by_edges(csp, pushes[0], fe):
+            okz = True
+    ctx.ob('R17.7', 'permit|no empty allocation', okz, 'an allocation of zero workers is never permitted (the loop stops at to_spawn == 0)', csp.loc(pushes[0]))
     # ---- R17.1
     n = 0
     for o, b, bi in call_sites(prog, SUBMIT):
